@@ -6,6 +6,7 @@ import (
 	"fmt"
 	"go/ast"
 	"regexp"
+	"strings"
 )
 
 var calledRe = regexp.MustCompile(`called\("([^"]+)"\)`)
@@ -99,4 +100,38 @@ func (e *Exec) sendsiteChecks(st *State, s *ast.SendStmt, v Val) {
 			o.Clause = c.Src
 		}
 	}
+}
+
+// lockAcquired models interference at a lock acquisition (opt atomic=lock): between two critical sections
+// other threads may have changed the protected state arbitrarily, subject to the lock invariants (the
+// contract's requires clauses, which the option declares to be invariants of the lock). `old` is re-anchored
+// at the acquisition, so postconditions describe the critical section that takes effect (the linearization
+// point) rather than the state at function entry.
+func (e *Exec) lockAcquired(st *State, name string, x *ast.CallExpr) {
+	if !strings.HasSuffix(name, ".Lock") && !strings.HasSuffix(name, ".RLock") {
+		return
+	}
+	if e.quiet || e.inContract > 0 || st.dead || len(e.frames) != 1 {
+		return
+	}
+	fr := e.frames[0]
+	fc := fr.contract
+	if fc == nil || fc.Opts["atomic"] != "lock" {
+		return
+	}
+	e.havocHeaps(st, "interference before lock acquisition")
+	if cl, ok := st.ghosts["closed"]; ok {
+		// other threads may have closed more channels (never re-opened any)
+		n := e.sc.Fresh("closed", cl.T.Sort)
+		e.sc.Assert(T(SBool, fmt.Sprintf("(forall ((c Int)) (! (=> (select %s c) (select %s c)) :pattern ((select %s c))))", cl.T.S, n.S, n.S)))
+		st.ghosts["closed"] = Val{T: n}
+	}
+	env := e.loopEnv(st, x.Pos(), nil)
+	for _, r := range fc.Requires {
+		e.assume(st, e.evContract(st, r.Expr, env))
+	}
+	a := st.clone()
+	a.anchor = nil
+	st.anchor = a
+	e.trust("lock acquisition re-establishes the lock invariants (requires clauses) after arbitrary interference; old() is anchored at the last acquisition")
 }
